@@ -19,7 +19,9 @@ def inject(rng, rows, i, kind, unit):
     if kind == "no_bullet":
         if body[:1] not in (b"-", b"*", b"+"):
             return None
-        alt = rng.choice([b"x" + body, body[1:].lstrip(b" ") or b"x", b"=" + body[1:], b"\xe3\x80\x80" + body])
+        alt = rng.choice([b"x" + body, body[1:].lstrip(b" ") or b"x", b"=" + body[1:], b"\xe3\x80\x80" + body,
+                          # a row made ONLY of control characters that are NOT white space: not blank, and no bullet
+                          b"\x1b", b"\x00", b"\x01\x02", b"\x7f", b"\x1f\x1e", b"\x08"])
         if alt.lstrip(b" \t")[:1] in (b"-", b"*", b"+", b"#") or alt.strip() == b"":
             alt = b"x" + body
         new = row[:ind] + alt
